@@ -260,23 +260,68 @@ def run(ctx):
     okh = len(handlers) == 1 and any(isinstance(s, ast.Raise) and src(s.exc).startswith("IndexError") for s in handlers[0].ast.body)
     ctx.ob("C12.FAST", gi, "running out of elements while indexing raises IndexError", okh, construct="except StopIteration: raise IndexError")
     full = [n for n in cfg.live_nodes() if n.kind == "stmt" and isinstance(n.ast, ast.Return) and "list(iter(self))[item]" in src(n.ast).replace(" ", "")]
-    ok_neg = len(full) == 2
+    ok_neg = len(full) >= 2
     ctx.ob("C12.FAST", gi, "negative indices and negative slice steps are answered from the full listing", ok_neg,
            construct="return list(iter(self))[item]", detail="found %d such returns" % len(full))
-    for n in full:
-        fs = facts.at(n)
-        ok = ("item >= 0", False) in fs or any(tv and "item.step < 0" in t for t, tv in fs)
-        ctx.ob("C12.FAST", gi, "the full-listing return is taken for item < 0 or step < 0", ok, construct="guard of %s" % stmt_text(n),
-               detail=str(sorted(t for t, tv in fs)))
+    # (no obligation on WHEN the full listing is used: `list(iter(self))[item]` is right for every item; what must not
+    #  happen - a bound islice cannot express reaching islice - is C12.SLICE below)
     pos = [n for n in cfg.live_nodes() if n.kind == "stmt" and "range(item + 1)" in src(n.ast).replace("item+1", "item + 1")]
     ctx.ob("C12.FAST", gi, "a non-negative index advances item+1 times", bool(pos) and all(("item >= 0", True) in facts.at(p) for p in pos),
            construct="for i in range(item + 1)")
-    isl = [x for x in walk_local(gi.node) if isinstance(x, ast.Call) and src(x.func) == "itertools.islice"]
+    # C12.SLICE - rule[a:b:c] == list(rule)[a:b:c] for every bound that is absent, zero, negative or positive.
+    # itertools.islice takes None or a non-negative start / stop and None or a positive step; a list slice gives a
+    # meaning to negative bounds, to a zero stop (empty) and rejects a zero step.  For every islice call in
+    # __getitem__ and every class of each bound: either the branch facts at the call exclude that class, or the
+    # argument passed has the list meaning.  (`list(iter(self))[item]` is right for every item and needs no guard.)
+    from .. import absval
+    isl = [x for x in walk_local(gi.node) if isinstance(x, ast.Call) and src(x.func).split(".")[-1] == "islice"]
     inl = ctx.inliner(gi)
-    isl_node = [n for n in cfg.live_nodes() if n.ast is not None and isl and any(x is isl[0] for x in ast.walk(n.ast))]
-    oks = len(isl) == 1 and bool(isl_node) and [inl.src(isl_node[0], a).replace(" ", "") for a in isl[0].args] == ["self", "item.startor0", "item.stoporsys.maxsize", "item.stepor1"]
-    ctx.ob("C12.FAST", gi, "forward slices are islice(self, start or 0, stop or maxsize, step or 1)", oks, construct="itertools.islice arguments",
-           detail="" if oks else str([src(a) for a in isl[0].args]) if isl else "no islice")
+    ctx.floor("C12.SLICE", len(isl), 1, "islice calls in __getitem__")
+    slice_param = gi.params[1] if len(gi.params) > 1 else "item"
+    LIST_MEANING = {
+        # bound: class -> acceptable abstract values of the islice argument (None = the path must be excluded)
+        "start": {"none": [absval.NONE, ("int", 0)], "zero": [("int", 0)], "pos": "same", "neg": None},
+        "stop": {"none": [absval.NONE, ("int", absval.BIG)], "zero": [("int", 0)], "pos": "same", "neg": None},
+        "step": {"none": [absval.NONE, ("int", 1)], "zero": [("int", 0)], "pos": "same", "neg": None},
+    }
+    for call in isl:
+        nodes = [n for n in cfg.live_nodes() if n.ast is not None and n.kind in ("stmt", "branch") and any(x is call for x in ast.walk(n.ast))]
+        if len(nodes) != 1:
+            raise AnalysisError("C12.SLICE", gi.qualname, "islice call not in a plain statement")
+        node = nodes[0]
+        ctx.ob("C12.SLICE", gi, "the forward slice iterates the rule itself, bounds passed positionally", len(call.args) == 4 and not call.keywords and src(call.args[0]) == "self",
+               construct="islice(self, start, stop, step)", detail=src(call))
+        if len(call.args) != 4:
+            continue
+        fs = facts.at(node)
+        for pos_, bound in enumerate(("start", "stop", "step"), 1):
+            operand = "%s.%s" % (slice_param, bound)
+            try:
+                arg = ast.parse(inl.src(node, call.args[pos_]), mode="eval").body
+            except SyntaxError:
+                arg = call.args[pos_]
+            for cls in absval.CLASSES:
+                env = {operand: cls}
+                want = LIST_MEANING[bound][cls]
+                label = {"none": "absent (None)", "zero": "0", "neg": "negative", "pos": "positive"}[cls]
+                if absval.refuted(fs, env):
+                    ok, got = True, "excluded by the branch facts"
+                else:
+                    v = absval.evaluate(arg, env)
+                    got = absval.show(v)
+                    if want is None:
+                        ok = False
+                        got = "reaches islice (which rejects it) as %s" % got
+                    elif want == "same":
+                        ok = v == ("sym", operand, "pos")
+                    else:
+                        ok = v in want
+                ctx.ob("C12.SLICE", gi, "a slice %s that is %s means what it means for list(rule)[a:b:c]" % (bound, label), ok,
+                       construct="__getitem__: islice %s argument when %s is %s" % (bound, operand, label),
+                       detail="" if ok else "islice receives: %s (argument `%s`); list slicing: %s" % (
+                           got, src(call.args[pos_]), {"neg": "counts from the end", "zero": "empty result" if bound == "stop" else ("ValueError" if bound == "step" else "from the first element"),
+                                                     "none": "the default", "pos": "that bound"}[cls]),
+                       analysis="four-point abstract evaluation (None / 0 / negative / positive) of the argument under the must-hold branch facts")
 
     # ---------------------------------------------------------------- C12.COUNT
     cnt = prog.method(base.qualname, "count", "C12.COUNT")
